@@ -73,6 +73,11 @@ def _worker(args):
 
     def evaluate(case, ev):
         pr, levels = case
+        try:
+            P.evaluate(pr)      # programs whose result the language does not fix (machine-integer overflow, step budget) are not compared
+        except P.OutOfModel:
+            ev.classes["out_of_model"] += 1
+            return None
         src = P.render(pr)
         h = P.phash(pr)
         for lv in levels:
